@@ -95,7 +95,7 @@ def run(rep):
     items += function_items(rep)
     items += scale_items(rep)
     items += [{'case': c} for c in sk.classics()]
-    n_random = 300 if rep.tier == 'quick' else 5000
+    n_random = 200 if rep.tier == 'quick' else 5000
     items += [{'case': c} for c in sk.random_cases(rep.seed, n_random, contractive_share=0.4)]
     rep.extra['random_systems'] = n_random
     observed, verdicts = sk.judge_cases(rep, core, 'C02', items, nontrivial)
